@@ -446,6 +446,202 @@ example : GbSeg [[0x41], [0xC4, 0xE3], [0x94, 0x39, 0xFC, 0x36]] := by
   · exact Or.inr (Or.inl ⟨_, _, rfl, by decide, by decide, by decide⟩)
   · exact Or.inr (Or.inr ⟨_, _, _, _, rfl, by decide, by decide, by decide, by decide⟩)
 
+/-! ### parts are filled as far as whole characters allow (C07) -/
+
+/-- an offset strictly inside the first character is not a boundary -/
+theorem not_boundary_inside_head (c : List Nat) (rest : List (List Nat)) (q : Nat) (h0 : 0 < q) (h1 : q < c.length) :
+    ¬ IsBoundary (c :: rest) q := by
+  rintro ⟨k, _, hk⟩
+  cases k with
+  | zero => simp at hk; omega
+  | succ k => simp only [List.take_succ_cons, List.flatten_cons, List.length_append] at hk; omega
+
+/-- GSM 7-bit: the offset right after an escape septet that starts a character is inside that character -/
+theorem gsm_esc_next_not_boundary (chars : List (List Nat)) (hseg : GsmSeg chars) (q : Nat)
+    (hq : q < chars.flatten.length) (hesc : chars.flatten.getD q 0 = Gsm7.esc) : ¬ IsBoundary chars (q + 1) := by
+  induction chars generalizing q with
+  | nil => simp at hq
+  | cons c rest ih =>
+    have hc := hseg c (by simp)
+    have hrest : GsmSeg rest := fun x hx => hseg x (by simp [hx])
+    rw [flatten_cons_length] at hq
+    rcases hc with ⟨x, rfl, hx⟩ | ⟨y, rfl, hy⟩
+    · cases q with
+      | zero => simp [List.flatten_cons] at hesc; exact absurd hesc hx
+      | succ q =>
+        have hget : ([x] :: rest).flatten.getD (q + 1) 0 = rest.flatten.getD q 0 := by
+          simp only [List.flatten_cons, List.singleton_append, List.getD_cons_succ]
+        rw [hget] at hesc
+        intro hb
+        have := (isBoundary_cons [x] rest (q + 1 + 1) (by simp)).1 hb
+        exact ih hrest q (by simp only [List.length_cons, List.length_nil] at hq; omega) hesc (by simpa using this)
+    · cases q with
+      | zero => exact not_boundary_inside_head [Gsm7.esc, y] rest 1 (by omega) (by simp)
+      | succ q =>
+        cases q with
+        | zero =>
+          simp only [List.flatten_cons, List.cons_append, List.nil_append, List.getD_cons_succ, List.getD_cons_zero] at hesc
+          exact absurd hesc hy
+        | succ q =>
+          have hget : ([Gsm7.esc, y] :: rest).flatten.getD (q + 1 + 1) 0 = rest.flatten.getD q 0 := by
+            simp only [List.flatten_cons, List.cons_append, List.nil_append, List.getD_cons_succ]
+          rw [hget] at hesc
+          intro hb
+          have := (isBoundary_cons [Gsm7.esc, y] rest (q + 1 + 1 + 1) (by simp)).1 hb
+          exact ih hrest q (by simp only [List.length_cons, List.length_nil] at hq; omega) hesc (by simpa using this)
+
+/-- **parts are filled (GSM 7-bit)**: between the cut the code chooses and the capacity there is no
+    character boundary: the part could not have held one more whole character -/
+theorem C07_filled_gsm (chars : List (List Nat)) (hseg : GsmSeg chars) (per : Nat) (b : Nat)
+    (hlt : b + per < chars.flatten.length) (q : Nat)
+    (h1 : gsmBoundary chars.flatten b (b + per) < q) (h2 : q ≤ b + per) : ¬ IsBoundary chars q := by
+  unfold gsmBoundary at h1
+  split at h1
+  · rename_i hc
+    have hq : q = b + per - 1 + 1 := by omega
+    rw [hq]
+    exact gsm_esc_next_not_boundary chars hseg (b + per - 1) (by omega) hc.2
+  · omega
+
+/-- UTF-16BE: the offset two octets after a high surrogate is inside the pair -/
+theorem ucs_high_next_not_boundary (chars : List (List Nat)) (hseg : UcsSeg chars) (m : Nat)
+    (hq : 2 * m + 2 ≤ chars.flatten.length) (hhi : chars.flatten.getD (2 * m) 0 / 4 = 0x36) :
+    ¬ IsBoundary chars (2 * m + 2) := by
+  induction chars generalizing m with
+  | nil => simp at hq
+  | cons c rest ih =>
+    have hc := hseg c (by simp)
+    have hrest : UcsSeg rest := fun x hx => hseg x (by simp [hx])
+    rw [flatten_cons_length] at hq
+    rcases hc with ⟨a, b, rfl, ha1, ha2⟩ | ⟨h1, h2, l1, l2, rfl, hh, hl⟩
+    · cases m with
+      | zero =>
+        simp only [Nat.mul_zero, List.flatten_cons, List.cons_append, List.nil_append, List.getD_cons_zero] at hhi
+        exact absurd hhi ha1
+      | succ m =>
+        have hget : ([a, b] :: rest).flatten.getD (2 * (m + 1)) 0 = rest.flatten.getD (2 * m) 0 := by
+          have : 2 * (m + 1) = 2 * m + 1 + 1 := by omega
+          rw [this]
+          simp only [List.flatten_cons, List.cons_append, List.nil_append, List.getD_cons_succ]
+        rw [hget] at hhi
+        intro hb
+        have := (isBoundary_cons [a, b] rest (2 * (m + 1) + 2) (by simp only [List.length_cons, List.length_nil]; omega)).1 hb
+        have e : 2 * (m + 1) + 2 - [a, b].length = 2 * m + 2 := by simp only [List.length_cons, List.length_nil]; omega
+        rw [e] at this
+        exact ih hrest m (by simp only [List.length_cons, List.length_nil] at hq; omega) hhi this
+    · cases m with
+      | zero => exact not_boundary_inside_head [h1, h2, l1, l2] rest 2 (by omega) (by simp)
+      | succ m =>
+        cases m with
+        | zero =>
+          simp only [List.flatten_cons, List.cons_append, List.nil_append, List.getD_cons_succ, List.getD_cons_zero] at hhi
+          rw [hl] at hhi; omega
+        | succ m =>
+          have hget : ([h1, h2, l1, l2] :: rest).flatten.getD (2 * (m + 1 + 1)) 0 = rest.flatten.getD (2 * m) 0 := by
+            have : 2 * (m + 1 + 1) = 2 * m + 1 + 1 + 1 + 1 := by omega
+            rw [this]
+            simp only [List.flatten_cons, List.cons_append, List.nil_append, List.getD_cons_succ]
+          rw [hget] at hhi
+          intro hb
+          have := (isBoundary_cons [h1, h2, l1, l2] rest (2 * (m + 1 + 1) + 2) (by simp only [List.length_cons, List.length_nil]; omega)).1 hb
+          have e : 2 * (m + 1 + 1) + 2 - [h1, h2, l1, l2].length = 2 * m + 2 := by
+            simp only [List.length_cons, List.length_nil]; omega
+          rw [e] at this
+          exact ih hrest m (by simp only [List.length_cons, List.length_nil] at hq; omega) hhi this
+
+/-- **parts are filled (UCS-2)** -/
+theorem C07_filled_ucs2 (chars : List (List Nat)) (hseg : UcsSeg chars) (per : Nat) (heven : per % 2 = 0) (b : Nat)
+    (hb : IsBoundary chars b) (hlt : b + per < chars.flatten.length) (q : Nat)
+    (h1 : ucs2Boundary chars.flatten b (b + per) < q) (h2 : q ≤ b + per) : ¬ IsBoundary chars q := by
+  have hbe := ucs_boundary_even chars hseg b hb
+  unfold ucs2Boundary at h1
+  split at h1
+  · rename_i hc
+    intro hq
+    have hqe := ucs_boundary_even chars hseg q hq
+    have hqv : q = b + per := by omega
+    obtain ⟨m, hm⟩ : ∃ m, b + per - 2 = 2 * m := ⟨(b + per - 2) / 2, by omega⟩
+    have h36 : (0xD8 : Nat) / 4 = 0x36 := by decide
+    rw [h36, hm] at hc
+    have := ucs_high_next_not_boundary chars hseg m (by omega) hc.2
+    rw [← hm] at this
+    have e : b + per - 2 + 2 = q := by omega
+    rw [e] at this
+    exact this hq
+  · omega
+
+theorem gbCharLen_pos (d : List Nat) (i : Nat) : 1 ≤ gbCharLen d i := by
+  unfold gbCharLen; simp only; split <;> (try split) <;> omega
+
+/-- GB18030: no boundary strictly inside the character that starts at a boundary -/
+theorem gb_no_boundary_inside (chars : List (List Nat)) (hseg : GbSeg chars) (p : Nat) (hb : IsBoundary chars p)
+    (hlt : p < chars.flatten.length) (q : Nat) (h1 : p < q) (h2 : q < p + gbCharLen chars.flatten p) :
+    ¬ IsBoundary chars q := by
+  induction chars generalizing p q with
+  | nil => simp at hlt
+  | cons c rest ih =>
+    have hc := hseg c (by simp)
+    have hrest : GbSeg rest := fun x hx => hseg x (by simp [hx])
+    by_cases hp0 : p = 0
+    · subst hp0
+      -- the computed length is the length of the first character
+      have hlen : gbCharLen (c :: rest).flatten 0 = c.length := by
+        rcases hc with ⟨a, rfl, ha⟩ | ⟨a, b, rfl, ha1, ha2, hb2⟩ | ⟨a, b, c', d, rfl, ha1, ha2, hb1, hb2⟩
+        · simp only [gbCharLen, List.flatten_cons, List.cons_append, List.nil_append, List.getD_cons_zero]
+          simp [ha]
+        · simp only [gbCharLen, List.flatten_cons, List.cons_append, List.nil_append, List.getD_cons_zero,
+            List.getD_cons_succ]
+          have h1 : ¬ (a < 0x81 ∨ a = 0xFF) := by omega
+          simp [h1, hb2]
+        · simp only [gbCharLen, List.flatten_cons, List.cons_append, List.nil_append, List.getD_cons_zero,
+            List.getD_cons_succ]
+          have h1 : ¬ (a < 0x81 ∨ a = 0xFF) := by omega
+          simp [h1, hb1, hb2]
+      rw [hlen] at h2
+      exact not_boundary_inside_head c rest q h1 (by omega)
+    · have hge := isBoundary_pos_ge c rest p hb (by omega)
+      obtain ⟨p', rfl⟩ : ∃ p', p = c.length + p' := ⟨p - c.length, by omega⟩
+      have hb' : IsBoundary rest p' := by
+        have := (isBoundary_cons c rest (c.length + p') (by omega)).1 hb
+        simpa using this
+      rw [flatten_cons_length] at hlt
+      have hshift : gbCharLen (c :: rest).flatten (c.length + p') = gbCharLen rest.flatten p' := by
+        simp only [List.flatten_cons]; exact gbCharLen_shift c rest.flatten p'
+      rw [hshift] at h2
+      intro hq
+      have hq' := (isBoundary_cons c rest q (by omega)).1 hq
+      exact ih hrest p' hb' (by omega) (q - c.length) (by omega) (by omega) hq'
+
+/-- with enough fuel the scan stops only where the next character would pass `e` -/
+theorem gbScan_stops (d : List Nat) (e : Nat) : ∀ (fuel pos : Nat), e - pos ≤ fuel → pos ≤ e →
+    e < gbScan d e fuel pos + gbCharLen d (gbScan d e fuel pos)
+  | 0, pos, hf, hle => by
+    simp only [gbScan]
+    have := gbCharLen_pos d pos
+    omega
+  | fuel+1, pos, hf, hle => by
+    simp only [gbScan]
+    split
+    · rename_i hn
+      have := gbCharLen_pos d pos
+      exact gbScan_stops d e fuel _ (by omega) hn
+    · omega
+
+/-- **parts are filled (GB18030)** -/
+theorem C07_filled_gb18030 (chars : List (List Nat)) (hseg : GbSeg chars) (per : Nat) (hper : 4 ≤ per) (b : Nat)
+    (hb : IsBoundary chars b) (hlt : b + per < chars.flatten.length) (q : Nat)
+    (h1 : gbBoundary chars.flatten b (b + per) < q) (h2 : q ≤ b + per) : ¬ IsBoundary chars q := by
+  obtain ⟨r1, r2, r3⟩ := gbScan_boundary chars hseg (b + per) (by omega) (b + per - b) b hb (by omega)
+  have hstop := gbScan_stops chars.flatten (b + per) (b + per - b) b (by omega) (by omega)
+  have hprog := ((C14_gb18030_rule_sound chars hseg per hper).2 b hb hlt).1
+  unfold gbBoundary at h1 hprog
+  simp only at h1 hprog
+  split at h1
+  · exact gb_no_boundary_inside chars hseg _ r1 (by omega) q h1 (by omega)
+  · rename_i hn
+    rw [if_neg hn] at hprog
+    omega
+
 example : GsmSeg [[0x31], [Gsm7.esc, 0x3C], [0x00]] := by
   intro c hc
   simp at hc
@@ -467,5 +663,8 @@ open SmsVerif.C14
 #print axioms C14_ucs2_cuts_are_boundaries
 #print axioms C14_gb18030_rule_sound
 #print axioms C14_gb18030_cuts_are_boundaries
+#print axioms C07_filled_gsm
+#print axioms C07_filled_ucs2
+#print axioms C07_filled_gb18030
 #print axioms SmsVerif.Split.cuts_on_boundaries
 end
